@@ -114,8 +114,10 @@ def stageStr : Stage → String
 def concSx (c : Conclusion) : SExp :=
   list [atom (tohex c.v), wordsSx c.hs, atom (match c.t with | some t => tohex t | none => "none")]
 
-/-- the evaluation context of one input row; `none` when a term class or operator is unknown to the regenerated model -/
-def mkCtx (vs : List VarD) (conj disj : Option String) (row : List (String × X Rat)) : Option (DegCtx Rat) := do
+/-- the evaluation context of one input row; `none` when a term class or operator is unknown to the regenerated model.
+    `cleared`: the variables whose terms were removed after the rule was loaded (their objects are false in Python) -/
+def mkCtx (vs : List VarD) (cleared : List String) (conj disj : Option String) (row : List (String × X Rat)) :
+    Option (DegCtx Rat) := do
   let cj ← match conj with
     | none => some none
     | some n => (Gen.normByName (α := Rat) n).map some
@@ -123,6 +125,7 @@ def mkCtx (vs : List VarD) (conj disj : Option String) (row : List (String × X 
     | none => some none
     | some n => (Gen.normByName (α := Rat) n).map some
   pure {
+    hasTerms := fun v => !cleared.contains v && ((findVarD vs v).map (fun d => !d.info.terms.isEmpty)).getD false
     enabled := fun v => ((findVarD vs v).map (·.info.enabled)).getD false
     isOutput := fun v => ((findVarD vs v).map (·.info.isOutput)).getD false
     membership := fun v t =>
@@ -168,8 +171,13 @@ def lang : List SExp → Option SExp
       match parseFloat (← lgAsText t) with
       | some x => pure (ofX x)
       | none => pure (atom "none")
-  -- (rule text (vars…) (conj disj) (rows…)): Rule.create(text, engine), then activate_with per row
-  | [atom "rule", text, vars, list [cj, dj], rows] => do
+  -- (rule text (vars…) (conj disj) (rows…) [(cleared…)]): Rule.create(text, engine), then - after the terms of the variables
+  -- `cleared` were removed - activate_with per row
+  | atom "rule" :: text :: vars :: list [cj, dj] :: rows :: more => do
+      let cleared ← match more with
+        | [] => some []
+        | [cl] => do (← cl.asList).mapM lgAsText
+        | _ => none
       let text ← lgAsText text
       let vs ← (← vars.asList).mapM asVarD
       let rows ← (← rows.asList).mapM asBindings
@@ -180,7 +188,7 @@ def lang : List SExp → Option SExp
       | .error (k, st) => pure (list [atom "err", atom k.str, atom (stageStr st)])
       | .ok (p, a, cs) =>
         let degs ← rows.mapM fun row => do
-          let c ← mkCtx vs conj disj row
+          let c ← mkCtx vs cleared conj disj row
           pure (match activateWith c p.weight a with
             | .ok d => ofX d
             | .error k => errSx k)
